@@ -6,7 +6,7 @@ A = 'phylib/io/array.py'
 declare_class('SpikeSelector', A)
 SEL_FIELDS = {'get_spikes_per_cluster': 'elem', 'spike_times': 'elem', 'chunks_kept': 'list[int]'}
 
-contract(A, 'SpikeSelector.__init__', props=['C17'],
+contract(A, 'SpikeSelector.__init__', props=['C17'], hints={'replay': ('chunks_kept', {'cb': ('array', 'chunk_bounds'), 'kept': 'n_chunks_kept'})},
     params={'get_spikes_per_cluster': 'elem', 'spike_times': 'elem', 'chunk_bounds': 'list[int]', 'n_chunks_kept': 'int'},
     fields=SEL_FIELDS, modifies=['self.get_spikes_per_cluster', 'self.spike_times', 'self.chunks_kept'],
     let={'n': 'len(chunk_bounds) - 1'},
@@ -25,7 +25,7 @@ contract(A, 'SpikeSelector.__init__', props=['C17'],
               'for q in range(len(self.chunks_kept) // 2)) and smul(len(self.chunks_kept) // 2, s) >= n for s in range(1, n + 2))',
               {'witness': {'s': 'i__step'}})])
 
-contract(A, '_times_in_chunks', props=['C17'],
+contract(A, '_times_in_chunks', props=['C17'], hints={'replay': ('times_in_chunks', {'times': ('array', 'times'), 'kept_bounds': ('array', 'chunks_kept'), 'times_dtype': ('const', 'int64')})},
     params={'times': 'arr[int]', 'chunks_kept': 'arr[int]'},
     requires=[('pairs', 'len(chunks_kept) % 2 == 0'),
               # kept chunks are intervals of an increasing grid: a_0 < b_0 <= a_1 < b_1 <= ... (inner bounds may be duplicated when the stride is 1)
